@@ -211,6 +211,10 @@ func inputIntact(orig *world.Call, used *world.Call, in *vmcommon.ContractCallIn
 			if !bytes.Equal(in.Arguments[i], orig.Args[i]) {
 				return false
 			}
+			// the slice the function was given is still the slice in the structure (not a normalised replacement)
+			if len(used.Args[i]) > 0 && (len(in.Arguments[i]) == 0 || &in.Arguments[i][0] != &used.Args[i][0]) {
+				return false
+			}
 		}
 	}
 	return true
